@@ -397,6 +397,12 @@ func runC20(c *Ctx) {
 		c.obMustUnder("abort pipe", f, []string{"pipe-abort"}, aPipeOpen)
 		c.obMustUnder("Logout", f, []string{lLogout}, aSessSet)
 		_, sm := c.Std()
+		// the delivery goroutine is released (pipe aborted) BEFORE the backend is called back with Logout: a Logout that
+		// waits for the session's Data call to finish (a per-session mutex) would otherwise wait, under Conn.locker
+		// and Server.locker, for a goroutine that only the pipe abort can release
+		for _, g := range c.withHelpers(f) {
+			c.obNever("pipe aborted before Logout, not after", g, func(in ssa.Instruction) bool { return labelHas(c.stdLabels(in), lLogout) }, []string{"pipe-abort"}, nil, nil)
+		}
 		R.Ob("(*Conn).Close/marks the connection closed on every path", c.P.Pos(f.Pos()), sm.Must(f)["st:Conn.closed=true"], "Conn.Close can return without setting closed (for example when closing the socket fails): the command loop keeps dispatching buffered commands on a connection whose session is gone")
 	}
 	// Conn.Close (from Server.Close, on another goroutine) logs the session out and forgets it under Conn.locker. The
